@@ -163,6 +163,9 @@ func (r *zzChunkReader) Read(p []byte) (int, error) {
 	if len(p) < hi {
 		hi = len(p)
 	}
+	if hi == 0 {
+		return 0, nil // a zero-length read returns nothing, as io.Reader allows
+	}
 	n := verifNondetRange(1, hi)
 	copy(p, r.data[r.pos:r.pos+n])
 	r.pos += n
